@@ -259,6 +259,11 @@ func (d *Decoder) Write(p []byte) (n int, err error) {
 	}
 
 	for len(d.buf) > 0 {
+		// RFC 7541 section 4.2 allows more than one dynamic table size
+		// update at the beginning of a header block (the smallest size
+		// reached, then the final size): a size update does not end the
+		// "beginning of the block".
+		isSizeUpdate := d.buf[0]&0xe0 == 0x20
 		err = d.parseHeaderFieldRepr()
 		if err == errNeedMore {
 			// Extra paranoia, making sure saveBuf won't
@@ -276,7 +281,9 @@ func (d *Decoder) Write(p []byte) (n int, err error) {
 			d.saveBuf.Write(d.buf)
 			return len(p), nil
 		}
-		d.firstField = false
+		if !isSizeUpdate {
+			d.firstField = false
+		}
 		if err != nil {
 			break
 		}
